@@ -85,7 +85,8 @@ pub fn run(case: &Value, ctx: &Ctx) -> Outcome {
             let f = &case["file"];
             let version = f["version"].as_u64().unwrap() as u8;
             let header = f["header"].as_str().unwrap();
-            let data: Vec<u8> = f["data"].as_array().unwrap().iter().map(|b| b.as_u64().unwrap() as u8).collect();
+            let rep = f["repeat"].as_u64().unwrap_or(1) as usize;
+            let data: Vec<u8> = f["data"].as_array().unwrap().iter().map(|b| b.as_u64().unwrap() as u8).collect::<Vec<u8>>().repeat(rep);
             let shape = usizes(&f["shape"]);
             let bytes = assemble(version, header, &data);
             out.nontrivial = Some(format!("reader/{}{}v{}/{}", case["order"].as_str().unwrap(), case["type"].as_str().unwrap(), version, header.trim()));
@@ -97,7 +98,7 @@ pub fn run(case: &Value, ctx: &Ctx) -> Outcome {
                     let v = qnum(&e["v"]);
                     if e["negzero"].as_bool().unwrap_or(false) { -0.0 } else { v }
                 }
-            }).collect();
+            }).collect::<Vec<f64>>().repeat(rep);
             let same = |a: &f64, b: &f64| (a.is_nan() && b.is_nan()) || a.to_bits() == b.to_bits();
             match read(&bytes) {
                 Ok(Ok((gs, gv))) => {
@@ -155,7 +156,12 @@ pub fn run(case: &Value, ctx: &Ctx) -> Outcome {
                 other => out.fail("npy/damage/intact-rejected", json!({"result": format!("{other:?}"), "header": header})),
             }
             let data_off = bytes.len() - data.len();
-            for t in 0..bytes.len() {
+            // every offset of small files; for long ones every offset near both ends and around buffer-sized
+            // boundaries, and every 61st in between
+            let offsets: Vec<usize> = if bytes.len() <= 2000 { (0..bytes.len()).collect() } else {
+                (0..bytes.len()).filter(|t| *t < 300 || *t + 300 > bytes.len() || t % 61 == 0 || (t % 1024) < 3 || (t % 1024) > 1021 || ((t + 128) % 8192) < 12).collect()
+            };
+            for t in offsets {
                 match read(&bytes[..t]) {
                     Ok(Err(_)) => out.check(true, String::new, || Value::Null),
                     Ok(Ok((s, v))) => out.fail(format!("npy/damage/prefix-accepted/{}", if t < data_off { "header" } else if (t - data_off) % itemsize == 0 { "value-boundary" } else { "mid-value" }),
